@@ -108,6 +108,9 @@ func runC05(c *engine.Case) engine.Result {
 	if strings.HasPrefix(c.Kind, "c05cli:") {
 		return runC05CLI(c)
 	}
+	if strings.HasPrefix(c.Kind, "c05cliy:") {
+		return runC05CLIYaml(c)
+	}
 	construct := ""
 	if strings.HasPrefix(c.Kind, "c05live:") {
 		rest := strings.TrimPrefix(c.Kind, "c05live:")
